@@ -356,7 +356,7 @@ class KeepAliveHarness:
         return ex
 
 
-PROXIED = ["h11tls", "h2alpn", "h2exp11", "fwd", "tunnel", "tunnel-h2", "tunnel-s", "socks", "socks-auth-tls", "socks-h2"]
+PROXIED = ["h11tls", "h2alpn", "h2exp11", "fwd", "tunnel", "tunnel-h2", "tunnel-s", "socks", "socks-auth-tls", "socks-h2", "fwd-L", "tunnel-L", "socks-L"]
 CONFIGS_OTHER_TYPES = [(2, 1, 5.0), (1, None, 5.0), (3, 2, 0)]
 CONFIGS_QUICK = [(1, None, None), (2, 1, None), (2, 0, 5.0), (3, 1, 5.0), (3, 2, 0), (None, 1, 5.0), (2, None, 5.0), (None, None, 0)]
 
@@ -386,6 +386,8 @@ def specs(tier):
             for variant in ("sync", "async"):
                 if tier == "quick" and i > 0 and variant == "async":
                     continue
+                if ct.endswith("-L") and (i > 0 if tier == "quick" else (a, b, c) not in CONFIGS_OTHER_TYPES):
+                    continue      # pools built as HTTPProxy / SOCKSProxy objects: one configuration (three in the thorough tier)
                 out.append(make_spec(MOD, "KeepAliveHarness", variant=variant, ct=ct, max_connections=a, max_keepalive=b, expiry=c,
                                      depth=3 if tier == "quick" else 4, origins=2))
     return out
